@@ -11,7 +11,7 @@ from pyvc.symmap import Combined, ABSENT, present_term
 from pyvc.report import Task
 from pyvc.tasks import repo, budget, result_dict
 from pyvc.solve import Obligation, discharge
-from pyvc.symex import explore, Obj, Opaque
+from pyvc.symex import explore, built_instance, Obj, Opaque
 from props.C01 import term, chunks
 from props.C04 import State, frames_setattr_hook, FUNC
 
@@ -58,7 +58,7 @@ class RoundTripTask(Task):
             ex.assume(z3.Or(st.absent.t, st.sc.t != s.t))
             P = [ex.fresh(f'p{i}', bits=8) for i in range(n)]
             ex.ghost['P'] = P
-            enc = Obj(r.cls('encoder', 'NMEA2000Encoder'), {'sequence_counter': s})
+            enc = built_instance(ex, r.cls('encoder', 'NMEA2000Encoder'), {'sequence_counter': s})
             frames = ex._run_body(enc_info, [st.pgn, st.priority, st.src, st.dest, SBytes(P)], {}, enc)
             rets = []
             for fr in frames:
@@ -160,6 +160,12 @@ def add(run, tier):
     # whether a message goes out as a fast packet depends on its PGN only, never on how long its payload happens to be
     for n in (0, 1, 3, 6, 7, 8, 20):
         run.add(EncodeTask('C03', payload_len=n))
+    # receiver side of the same decision: a frame reaches the reassembly exactly when the database calls its PGN a fast
+    # packet, whatever the decoder has seen before (the contract of _decode, decoder state arbitrary)
+    from contracts.decoder_c import DecodeTask
+    for n in (8, 3):
+        run.add(DecodeTask('C03', False, False, data_len=n))
+    run.add(DecodeTask('C03', True, False))
     ls = list(range(0, 224))
     for pad in (False, True):
         for ch in chunks(ls, 16):
